@@ -65,7 +65,7 @@ func (this *Metadata) loadKV(r io.Reader) (string, string, error) {
 		return "", "", err
 	}
 	keyBytes := make([]byte, keyLength)
-	if _, err := r.Read(keyBytes); err != nil {
+	if _, err := io.ReadFull(r, keyBytes); err != nil {
 		return "", "", err
 	}
 
@@ -74,7 +74,7 @@ func (this *Metadata) loadKV(r io.Reader) (string, string, error) {
 		return "", "", err
 	}
 	valBytes := make([]byte, valLength)
-	if _, err := r.Read(valBytes); err != nil {
+	if _, err := io.ReadFull(r, valBytes); err != nil {
 		return "", "", err
 	}
 
